@@ -36,7 +36,7 @@ type VerifC11Case struct {
 	Kind string `json:"kind"` // "cfg" | "raffle"
 	// cfg
 	Source    string `json:"source"`    // dataset | sample | slow
-	Transform string `json:"transform"` // none | js | panic (js + a panic injected right after the transform of a page)
+	Transform string `json:"transform"` // none | js | jspar (js, Parallelism 10, pages of 15) | panic (js + injected panic) | empty (js returning no entity)
 	Sink      string `json:"sink"`      // devnull | dataset | missing
 	Trigger   string `json:"trigger"`   // cron | onchange
 	JobType   string `json:"jobType"`   // incremental | fullsync
@@ -160,6 +160,9 @@ func VerifC11RunCfg(c VerifC11Case, dir string) (obs VerifC11Obs) {
 		"none":  ``,
 		"js":    fmt.Sprintf(`"transform":{"Type":"JavascriptTransform","Code":"%s"},`, code),
 		"panic": fmt.Sprintf(`"transform":{"Type":"JavascriptTransform","Code":"%s"},`, code),
+		"jspar": fmt.Sprintf(`"transform":{"Type":"JavascriptTransform","Parallelism":10,"Code":"%s"},`, code),
+		"empty": fmt.Sprintf(`"transform":{"Type":"JavascriptTransform","Code":"%s"},`,
+			base64.StdEncoding.EncodeToString([]byte(`function transform_entities(entities) { return []; }`))),
 	}[c.Transform]
 	handlers := map[string]string{
 		"none":     ``,
